@@ -5,6 +5,7 @@
 mod custom;
 mod gen;
 mod props;
+mod session;
 mod streams;
 mod util;
 use util::*;
